@@ -38,7 +38,15 @@ import (
 //	noRouteEvents   the events of the `target == nil` branch; noRouteLo/Hi/Default parsed out of them
 //	urlEvents       every store to the target URL, the escaped path, the request's Host and URL, with its guards
 //	directorStores  the stores of the Director function literal to its request parameter
+//	directorEffects every store to and every method call on the outgoing request in the Director (guards dropped)
 //	rw*             the wrapper handed to h.ServeHTTP forwards WriteHeader and Write
+//	request*        what ServeHTTP, its helpers in the package and trace.CreateSpan/spanName/InjectHeaders do to the
+//	                incoming request: requestCalls (methods called on it or on its fields, as selector paths),
+//	                requestStores (fields assigned), requestBodyMentions (Body/Form/PostForm/MultipartForm/GetBody/Trailer
+//	                referred to at all) — sorted, unique
+//	noroute*        noroute/store.go: the package variable is an atomic.Value, SetHTML/GetHTML as events
+//	main*           the wiring in main.go no harness executes: the fields of the HTTPProxy literal, the Lookup closure,
+//	                the no-route page watcher
 func init() {
 	register("C07", func(x *X) error {
 		x.UseNormalizedAST()
@@ -139,13 +147,15 @@ func init() {
 		}
 
 		// ---- the no-route branch
-		var nr []string
+		var nr, nrActs []string
 		for _, e := range w.events {
 			if lv := c07live(e.guards); len(lv) > 0 && lv[0] == "target == nil" && !strings.HasPrefix(e.act, "enter ") {
 				nr = append(nr, c07render(lv[1:], e.act))
+				nrActs = append(nrActs, e.act)
 			}
 		}
 		x.defStrList("noRouteEvents", nr)
+		x.defStrList("noRouteActions", nrActs) // the same with the guards dropped: what the branch can do at all
 		c07bounds(x, nr)
 
 		// ---- the target URL, the escaped path, the request's Host and URL
@@ -175,6 +185,9 @@ func init() {
 
 		c07director(x, w)
 		c07responseWriter(x, fd)
+		c07requestTouch(x, fd)
+		c07mainWiring(x)
+		c07norouteStore(x)
 		return nil
 	})
 }
@@ -600,13 +613,18 @@ func c07director(x *X, w *c07walker) {
 				fr := dw.topFrame(fd, []string{"turl"})
 				fr.locals[fl.Type.Params.List[0].Names[0].Name] = "out"
 				dw.block(fl.Body.List, nil, fr, "")
-				var stores []string
+				var stores, effects []string
 				for _, e := range dw.events {
 					if strings.HasPrefix(e.act, "store out.") || strings.HasPrefix(e.act, "store out ") {
 						stores = append(stores, c07render(e.guards, e.act))
 					}
+					// everything the director does to the outgoing request, guards dropped: stores and method calls
+					if strings.HasPrefix(e.act, "store out.") || strings.HasPrefix(e.act, "store out ") || strings.HasPrefix(e.act, "call out.") {
+						effects = append(effects, e.act)
+					}
 				}
 				x.defStrList("directorStores", stores)
+				x.defStrList("directorEffects", effects)
 				return false
 			})
 		}
@@ -719,4 +737,330 @@ func c07responseWriter(x *X, serve *ast.FuncDecl) {
 		})
 	}
 	x.defBool("rwWriteForwards", ok)
+}
+
+// ---------------------------------------------------------------------------------------------------------
+// what happens TO the request before the handler gets it
+// ---------------------------------------------------------------------------------------------------------
+
+// c07root splits a selector chain rooted at an identifier: r.URL.Path -> ("r", "URL.Path"); r.Header["X"] -> ("r", "Header[]").
+func c07root(e ast.Expr) (string, string) {
+	switch v := e.(type) {
+	case *ast.Ident:
+		return v.Name, ""
+	case *ast.SelectorExpr:
+		r, p := c07root(v.X)
+		if r == "" {
+			return "", ""
+		}
+		if p == "" {
+			return r, v.Sel.Name
+		}
+		return r, p + "." + v.Sel.Name
+	case *ast.IndexExpr:
+		r, p := c07root(v.X)
+		return r, p + "[]"
+	case *ast.ParenExpr:
+		return c07root(v.X)
+	case *ast.StarExpr:
+		return c07root(v.X)
+	}
+	return "", ""
+}
+
+// c07touches collects what the body of fd (package dir) does to its parameter `param`, following calls that hand
+// the parameter on to functions of the same package and to the functions of package trace.
+func c07touches(x *X, dir string, fd *ast.FuncDecl, param string, depth int, seen map[string]bool, out map[string]bool) {
+	key := dir + "." + fd.Name.Name + "/" + param
+	if fd.Body == nil || depth > 4 || seen[key] {
+		return
+	}
+	seen[key] = true
+	paramOf := func(callee *ast.FuncDecl, i int) string {
+		k := 0
+		if callee.Type.Params == nil {
+			return ""
+		}
+		for _, p := range callee.Type.Params.List {
+			for _, n := range p.Names {
+				if k == i {
+					return n.Name
+				}
+				k++
+			}
+		}
+		return ""
+	}
+	ast.Inspect(fd.Body, func(n ast.Node) bool {
+		switch v := n.(type) {
+		case *ast.AssignStmt:
+			for _, l := range v.Lhs {
+				if r, p := c07root(l); r == param && p != "" {
+					out["store "+p] = true
+				}
+			}
+		case *ast.IncDecStmt:
+			if r, p := c07root(v.X); r == param && p != "" {
+				out["store "+p] = true
+			}
+		case *ast.SelectorExpr:
+			if r, p := c07root(v); r == param {
+				for _, f := range []string{"Body", "Form", "PostForm", "MultipartForm", "GetBody", "Trailer"} {
+					if p == f || strings.HasPrefix(p, f+".") {
+						out["mention "+f] = true
+					}
+				}
+			}
+		case *ast.CallExpr:
+			if r, p := c07root(v.Fun); r == param && p != "" {
+				out["call "+p] = true
+			}
+			// the request handed on
+			for i, a := range v.Args {
+				id, ok := a.(*ast.Ident)
+				if !ok || id.Name != param {
+					continue
+				}
+				var callee *ast.FuncDecl
+				cdir := dir
+				switch f := v.Fun.(type) {
+				case *ast.Ident:
+					callee = x.anyFuncDecl(dir, f.Name)
+				case *ast.SelectorExpr:
+					if pk, ok := f.X.(*ast.Ident); ok && pk.Name == "trace" && dir != "trace" {
+						cdir = "trace"
+						callee = x.anyFuncDecl("trace", f.Sel.Name)
+					}
+				}
+				if callee != nil && callee.Recv == nil {
+					if pn := paramOf(callee, i); pn != "" {
+						c07touches(x, cdir, callee, pn, depth+1, seen, out)
+					}
+				}
+			}
+		}
+		return true
+	})
+}
+
+func c07requestTouch(x *X, serve *ast.FuncDecl) {
+	_, params, _ := x.LocalNames(serve)
+	if len(params) != 2 {
+		x.fail("proxy.ServeHTTP: expected (w, r) parameters")
+		return
+	}
+	out := map[string]bool{}
+	c07touches(x, "proxy", serve, params[1], 0, map[string]bool{}, out)
+	var calls, stores, mentions []string
+	for k := range out {
+		switch {
+		case strings.HasPrefix(k, "call "):
+			calls = append(calls, strings.TrimPrefix(k, "call "))
+		case strings.HasPrefix(k, "store "):
+			stores = append(stores, strings.TrimPrefix(k, "store "))
+		default:
+			mentions = append(mentions, strings.TrimPrefix(k, "mention "))
+		}
+	}
+	x.defSortedStrList("requestCalls", calls)
+	x.defSortedStrList("requestStores", stores)
+	x.defSortedStrList("requestBodyMentions", mentions)
+	// did the walk reach the span-name code at all?
+	reached := false
+	if fd := x.anyFuncDecl("trace", "CreateSpan"); fd != nil {
+		for _, c := range x.calls(serve.Body, "trace.CreateSpan") {
+			reached = reached || len(c.Args) > 0
+		}
+	}
+	x.defBool("requestTouchCoversCreateSpan", reached)
+}
+
+// ---------------------------------------------------------------------------------------------------------
+// main.go: the wiring around HTTPProxy that no harness executes
+// ---------------------------------------------------------------------------------------------------------
+
+func c07mainWiring(x *X) {
+	var fields, lookup []string
+	found := false
+	for _, f := range x.files(".") {
+		for _, d := range f.Decls {
+			fd, ok := d.(*ast.FuncDecl)
+			if !ok || fd.Body == nil {
+				continue
+			}
+			ast.Inspect(fd.Body, func(n ast.Node) bool {
+				cl, ok := n.(*ast.CompositeLit)
+				if !ok || x.src(cl.Type) != "proxy.HTTPProxy" || found {
+					return true
+				}
+				found = true
+				for _, el := range cl.Elts {
+					kv, ok := el.(*ast.KeyValueExpr)
+					if !ok {
+						continue
+					}
+					if fl, isFn := kv.Value.(*ast.FuncLit); isFn && x.src(kv.Key) == "Lookup" {
+						// the closure: role-named events, its parameter is `req`
+						w := newC07Walker(x, ".")
+						fr := &c07frame{fd: fd, locals: map[string]string{}}
+						if fl.Type.Params != nil && len(fl.Type.Params.List) == 1 && len(fl.Type.Params.List[0].Names) == 1 {
+							fr.locals[fl.Type.Params.List[0].Names[0].Name] = "req"
+						}
+						w.aliasPrefix = map[string]string{"$(route.GetTable().Lookup(": "target"}
+						w.closure(fl.Body.List, nil, fr, &lookup)
+						continue
+					}
+					fields = append(fields, x.src(kv.Key)+": "+x.src(kv.Value))
+				}
+				return false
+			})
+		}
+	}
+	if !found {
+		x.fail("main: no proxy.HTTPProxy literal found")
+	}
+	x.defSortedStrList("mainProxyFields", fields)
+	x.defStrList("mainLookupEvents", lookup)
+	// derived: the closure returns what the table lookup gave it for this very request and stores nothing into the request
+	fromTable, returnsIt := false, len(lookup) > 0
+	var reqStores []string
+	for _, e := range lookup {
+		act := e
+		if i := strings.Index(e, " ⊢ "); i >= 0 {
+			act = e[i+len(" ⊢ "):]
+		}
+		if strings.HasPrefix(act, "store target = route.GetTable().Lookup(req,") {
+			fromTable = true
+		}
+		if strings.HasPrefix(act, "return") && act != "return target" {
+			returnsIt = false
+		}
+		if strings.HasPrefix(act, "store req.") || strings.HasPrefix(act, "store req ") || strings.HasPrefix(act, "store target.") || strings.HasPrefix(act, "store *target") {
+			reqStores = append(reqStores, act)
+		}
+	}
+	x.defBool("mainLookupIsTableLookup", fromTable && returnsIt)
+	x.defStrList("mainLookupStores", reqStores)
+
+	// the no-route page: a goroutine started from main runs a loop that hands what the registry delivers to noroute.SetHTML
+	var watcher []string
+	started := false
+	var wfd *ast.FuncDecl
+	for _, f := range x.files(".") {
+		for _, d := range f.Decls {
+			fd, ok := d.(*ast.FuncDecl)
+			if !ok || fd.Body == nil {
+				continue
+			}
+			if len(x.calls(fd.Body, "noroute.SetHTML")) > 0 {
+				wfd = fd
+			}
+		}
+	}
+	if wfd == nil {
+		x.fail("main: no function calls noroute.SetHTML")
+	} else {
+		w := newC07Walker(x, ".")
+		fr := w.topFrame(wfd, nil)
+		w.alias = map[string]string{"$(registry.Default.WatchNoRouteHTML())": "pages", "$(<-pages)": "next"}
+		w.closure(wfd.Body.List, nil, fr, &watcher)
+		for _, f := range x.files(".") {
+			ast.Inspect(f, func(n ast.Node) bool {
+				if g, ok := n.(*ast.GoStmt); ok {
+					if id, ok := g.Call.Fun.(*ast.Ident); ok && id.Name == wfd.Name.Name {
+						started = true
+					}
+				}
+				return true
+			})
+		}
+	}
+	x.defStrList("watcherEvents", watcher)
+	x.defBool("mainStartsWatcher", started)
+}
+
+// closure walks statements like block, with `continue` printed as an event and a return's value shown; the rendered
+// events are appended to out.
+func (w *c07walker) closure(stmts []ast.Stmt, guards []string, fr *c07frame, out *[]string) {
+	for i, s := range stmts {
+		switch v := s.(type) {
+		case *ast.ReturnStmt:
+			var rs []string
+			for _, r := range v.Results {
+				rs = append(rs, w.expr(r, fr))
+			}
+			*out = append(*out, c07render(guards, strings.TrimSpace("return "+strings.Join(rs, ", "))))
+		case *ast.BranchStmt:
+			*out = append(*out, c07render(guards, v.Tok.String()))
+		case *ast.IfStmt:
+			if v.Init != nil {
+				w.closure([]ast.Stmt{v.Init}, guards, fr, out)
+			}
+			c := w.expr(v.Cond, fr)
+			w.closure(v.Body.List, append(append([]string(nil), guards...), c), fr, out)
+			if v.Else != nil {
+				w.closure([]ast.Stmt{v.Else}, append(append([]string(nil), guards...), "!("+c+")"), fr, out)
+			}
+			if c07terminates(v.Body) && v.Else == nil {
+				w.closure(stmts[i+1:], append(append([]string(nil), guards...), "past:!("+c+")"), fr, out)
+				return
+			}
+		case *ast.BlockStmt:
+			w.closure(v.List, guards, fr, out)
+		case *ast.ForStmt:
+			w.closure(v.Body.List, append(append([]string(nil), guards...), "loop"), fr, out)
+		case *ast.RangeStmt:
+			w.closure(v.Body.List, append(append([]string(nil), guards...), "loop"), fr, out)
+		default:
+			n := len(w.events)
+			w.block([]ast.Stmt{s}, guards, fr, "")
+			for _, e := range w.events[n:] {
+				*out = append(*out, c07render(e.guards, e.act))
+			}
+		}
+	}
+}
+
+// ---------------------------------------------------------------------------------------------------------
+// noroute/store.go
+// ---------------------------------------------------------------------------------------------------------
+
+func c07norouteStore(x *X) {
+	typ := ""
+	for _, f := range x.files("noroute") {
+		for _, d := range f.Decls {
+			gd, ok := d.(*ast.GenDecl)
+			if !ok || gd.Tok != token.VAR {
+				continue
+			}
+			for _, sp := range gd.Specs {
+				vs := sp.(*ast.ValueSpec)
+				if len(vs.Names) == 1 && vs.Type != nil {
+					typ = vs.Names[0].Name + " " + x.src(vs.Type)
+				}
+			}
+		}
+	}
+	name := ""
+	if i := strings.Index(typ, " "); i > 0 {
+		name, typ = typ[:i], typ[i+1:]
+	}
+	x.defStr("norouteVarType", typ)
+	ev := func(fn string, roles []string) []string {
+		fd := x.funcDecl("noroute", "", fn)
+		var out []string
+		if fd == nil || fd.Body == nil {
+			return out
+		}
+		w := newC07Walker(x, "noroute")
+		w.closure(fd.Body.List, nil, w.topFrame(fd, roles), &out)
+		for i := range out { // the package variable by role
+			if name != "" {
+				out[i] = regexp.MustCompile(`\b`+regexp.QuoteMeta(name)+`\.`).ReplaceAllString(out[i], "pagevar.")
+			}
+		}
+		return out
+	}
+	x.defStrList("norouteSetEvents", ev("SetHTML", []string{"page"}))
+	x.defStrList("norouteGetEvents", ev("GetHTML", nil))
 }
